@@ -12,6 +12,8 @@ package main
 
 import (
 	"bufio"
+	"crypto/sha256"
+	"encoding/hex"
 	"encoding/json"
 	"fmt"
 	"os"
@@ -50,6 +52,9 @@ func genC07(tier string, seed uint64, n int, e *Emitter) {
 	if repo == "" {
 		repo = "/repo"
 	}
+	// the static scan runs while the driver is built and run (cached per source state)
+	scanCh := make(chan c07ScanResult, 1)
+	go func() { scanCh <- c07ScanCached(repo) }()
 	work, _ := filepath.Abs(filepath.Join("..", ".work", fmt.Sprintf("c07-driver-%d", os.Getpid())))
 	if err := os.MkdirAll(work, 0o755); err != nil {
 		fmt.Fprintln(os.Stderr, "c07: cannot create", work, err)
@@ -67,6 +72,26 @@ func genC07(tier string, seed uint64, n int, e *Emitter) {
 	if out, err := build.CombinedOutput(); err != nil {
 		fmt.Fprintf(os.Stderr, "c07: go build -race of the driver failed: %v\n%s\n", err, out)
 		os.Exit(2)
+	}
+	scan := <-scanCh
+	diffs, unclassified := c07Compare(scan)
+	if k := len(unclassified); k > 0 && n == 0 {
+		if k > 3 {
+			k = 3
+		}
+		trials *= 1 + k // writes the scan could not classify are only covered dynamically: more trials
+	}
+	{
+		fail := ""
+		if scan.Err != "" {
+			// the scan itself did not work: nothing can be said statically; listed, not a failure of the library
+			unclassified = append(unclassified, c07Site{Field: "scan", Func: scan.Err})
+		} else if len(diffs) > 0 {
+			fail = "the access summary (Conc/Locks.v) no longer describes the code: " + strings.Join(diffs, "; ")
+		}
+		tags := []string{"summary-scan", fmt.Sprintf("unclassified-sites=%d", len(unclassified))}
+		e.Emit(Case{Coq: c07SummaryTerm(), Group: "summary", Fail: fail, Tags: tags,
+			Desc: map[string]interface{}{"reachable_functions": scan.Reachable, "write_sites": scan.Sites, "unclassified": unclassified, "differences": diffs}})
 	}
 	run := exec.Command(bin, fmt.Sprint(seed), fmt.Sprint(trials), tier)
 	run.Dir = work
@@ -163,6 +188,37 @@ func genC07(tier string, seed uint64, n int, e *Emitter) {
 		}
 		e.Emit(Case{Desc: map[string]interface{}{"driver": "aborted", "after_trials": len(reports)}, Group: "driver", Fail: "fatal error / crash of the concurrent driver: " + fatal, Tags: []string{"driver-died"}})
 	}
+}
+
+// c07ScanCached keeps the scan result per state of the library's sources (the scan type-checks the
+// standard library from source, which takes several seconds).
+func c07ScanCached(repo string) c07ScanResult {
+	h := sha256.New()
+	files, _ := filepath.Glob(filepath.Join(repo, "*.go"))
+	for _, f := range files {
+		if strings.HasSuffix(f, "_test.go") {
+			continue
+		}
+		b, _ := os.ReadFile(f)
+		h.Write([]byte(f))
+		h.Write(b)
+	}
+	self, _ := os.ReadFile("c07scan.go")
+	h.Write(self)
+	cache, _ := filepath.Abs(filepath.Join("..", ".work", "c07scan-"+hex.EncodeToString(h.Sum(nil)[:8])+".json"))
+	if b, err := os.ReadFile(cache); err == nil {
+		var r c07ScanResult
+		if json.Unmarshal(b, &r) == nil && r.Err == "" {
+			return r
+		}
+	}
+	r := c07Scan(repo)
+	if r.Err == "" {
+		if b, err := json.Marshal(r); err == nil {
+			os.WriteFile(cache, b, 0o644)
+		}
+	}
+	return r
 }
 
 func c07Tail(s string, n int) string {
